@@ -16,6 +16,7 @@ import TxdbusModel.Proofs.Client.CallsTrace
 import TxdbusModel.Proofs.Client.CallsCvt
 import TxdbusModel.Proofs.Client.CallsFirst
 import TxdbusModel.Proofs.Client.CallsReentrant
+import TxdbusModel.Proofs.Client.CallsCaller
 
 namespace Txdbus.C08
 
@@ -300,40 +301,95 @@ theorem counter_run_properties (asStr : V → Option (List Char)) (evs : List (E
    fun k => no_double_completion asStr _ (serials_distinct evs counter) k,
    no_faults asStr _ (serials_distinct evs counter)⟩
 
-/-! ## 7. Re-entrant callers: errbacks that issue new calls from inside the connection's functions -/
+/-! ## 7. What the CALLER receives: the raw firing composed with `_cbCvtReply` -/
 
-/-- The state of a ready connection after the re-entrant operations `ops` (operations, and `onErr did calls`:
-the caller attaches to Deferred `did` an errback issuing `calls` when it runs - inside `errorReceived`,
-`_onMethodTimeout`, `methodReturnReceived` (declared signature not met) or the loop of `connectionLost`). -/
+/-- The Deferred returned by the `callRemote` at position `i` has THAT invocation's `returnSignature` bound
+into its `_cbCvtReply` callback (not another call's, not looked up by serial). -/
+theorem return_signature_binding (asStr : V → Option (List Char)) (ops : List (Op V R)) {i σ : Nat} {er : Bool}
+    {tmo : Option Nat} {rs : RetSig} (hi : ops[i]? = some (.call σ er tmo rs)) :
+    rsOf (final asStr ops) (callId ops i) = rs :=
+  rsOf_call asStr ops hi rfl
+
+/-- What the caller's callbacks of the `callRemote` at position `i` (declared `rs`) see, in order: the
+specified firings, each passed through `_cbCvtReply` with `rs`. -/
+theorem caller_outcome (asStr : V → Option (List Char)) (ops : List (Op V R)) (hd : DistinctSerials ops)
+    {i σ : Nat} {er : Bool} {tmo : Option Nat} {rs : RetSig} (hi : ops[i]? = some (.call σ er tmo rs)) :
+    (firingsOf (callId ops i) (final asStr ops).log).map (outcome (rsOf (final asStr ops) (callId ops i)))
+      = (expectedFirings asStr ops i).map (outcome rs) := by
+  rw [return_signature_binding asStr ops hi, refinement asStr ops hd i ⟨_, hi, rfl⟩]
+
+/-- End to end for a return: if the first event concerning call `i` is a well-formed method return `m` with
+the call's serial, the caller receives exactly one result: RemoteError when the signature declared in THAT
+call differs from the reply's, otherwise the reply's values by the convention. -/
+theorem caller_gets_convention (asStr : V → Option (List Char)) (ops : List (Op V R)) (hd : DistinctSerials ops)
+    {i σ : Nat} {tmo : Option Nat} {rs : RetSig} (hi : ops[i]? = some (.call σ true tmo rs))
+    {j : Nat} (hij : i < j) {m : Reply V} (hj : ops[j]? = some (.ret σ m)) (hw : WellFormed m)
+    (hfirst : ∀ (j' : Nat) (op' : Op V R), i < j' → j' < j → ops[j']? = some op' →
+      completes asStr σ (callId ops i) (truthyTimeout tmo) op' = none) :
+    ((∃ d, declared rs = some d ∧ d ≠ sigOf m) →
+      ∃ t, (firingsOf (callId ops i) (final asStr ops).log).map
+        (outcome (rsOf (final asStr ops) (callId ops i))) = [.value (.remoteError t)]) ∧
+    ((¬ ∃ d, declared rs = some d ∧ d ≠ sigOf m) →
+      (firingsOf (callId ops i) (final asStr ops).log).map
+        (outcome (rsOf (final asStr ops) (callId ops i))) = [.value (convention (sigOf m) (valuesOf m))]) := by
+  have hfw := first_wins asStr ops hd hi hij hj (f := .callback (some m)) (by simp [completes]) hfirst
+  rw [return_signature_binding asStr ops hi, hfw]
+  obtain ⟨h1, h2, _⟩ := reply_convention m hw rs
+  refine ⟨fun hm => ?_, fun hm => ?_⟩
+  · obtain ⟨t, ht⟩ := h1 hm
+    exact ⟨t, by simp [outcome, ht]⟩
+  · simp [outcome, h2 hm]
+
+/-! ## 8. Re-entrant callers: callbacks that issue new calls from inside the connection's functions -/
+
+/-- The state of a ready connection after the re-entrant operations `ops`: operations; `onErr did calls` /
+`onOk did calls` (the caller attaches to Deferred `did` an errback / a callback issuing `calls` when it runs -
+inside `errorReceived`, `_onMethodTimeout`, `methodReturnReceived` or the loop of `connectionLost`);
+`onDisconnect a` (`notifyOnDisconnect` of a callback that issues calls or raises - run by `connectionLost`
+BEFORE it fails the pending calls). -/
 abbrev finalR (asStr : V → Option (List Char)) (ops : List (OpR V R)) : StR V R :=
-  runR asStr ⟨St.init V R true, []⟩ ops
+  runR asStr ⟨St.init V R true, [], []⟩ ops
 
 /-- The sequential operation sequence the re-entrant run amounts to: every operation followed by the calls
-its errbacks issued, as ordinary `call` operations. -/
+its callbacks issued, as ordinary `call` operations; for `connectionLost` the disconnect callbacks' calls
+BEFORE the `lost` (they are failed by it), the errbacks' retries AFTER it. -/
 abbrev flatOps (asStr : V → Option (List Char)) (ops : List (OpR V R)) : List (Op V R) :=
-  flat asStr ⟨St.init V R true, []⟩ ops
+  flat asStr ⟨St.init V R true, [], []⟩ ops
 
-/-- Re-entrancy adds nothing: the state reached with errbacks issuing calls in the middle of
-`connectionLost` (against the table already swapped for a fresh one) and at the end of the other functions
-is exactly the state reached by the flattened sequence - so every theorem above speaks about it; the calls
-issued by errbacks are calls like any other (`refinement`: each completes exactly once, by the first of its
-own return / error / deadline / a later loss). -/
-theorem reentrant_reduces (asStr : V → Option (List Char)) (ops : List (OpR V R))
+/-- Re-entrancy adds nothing - provided no disconnect callback lets an exception out of `connectionLost`
+(`NoRaise`: the source guards each callback, or none raises): the state reached is exactly the state reached
+by the flattened sequence, so every theorem above speaks about it; the calls issued by callbacks are calls like
+any other. -/
+theorem reentrant_reduces (asStr : V → Option (List Char)) (ops : List (OpR V R)) (hn : NoRaise ops)
     (hd : DistinctSerials (flatOps asStr ops)) :
     (finalR asStr ops).base = final asStr (flatOps asStr ops) :=
-  runR_base asStr ops ⟨St.init V R true, []⟩ (Inv.init true) (freshRun_init hd true)
+  runR_base asStr ops ⟨St.init V R true, [], []⟩ (Inv.init true) (Or.inr (by simp)) hn (freshRun_init hd true)
 
-/-- With re-entrant errbacks too: every Deferred handed out is in the table unfired or out of table and
+/-- With re-entrant callbacks too: every Deferred handed out is in the table unfired or out of table and
 timer list with exactly one firing; nothing raises. -/
-theorem reentrant_exactly_once (asStr : V → Option (List Char)) (ops : List (OpR V R))
+theorem reentrant_exactly_once (asStr : V → Option (List Char)) (ops : List (OpR V R)) (hn : NoRaise ops)
     (hd : DistinctSerials (flatOps asStr ops)) :
     (∀ k < (finalR asStr ops).base.nextId,
       ((∃ e ∈ (finalR asStr ops).base.pending, e.2.did = k) ∧ firingsOf k (finalR asStr ops).base.log = []) ∨
       ((∀ e ∈ (finalR asStr ops).base.pending, e.2.did ≠ k) ∧ (∀ x ∈ (finalR asStr ops).base.timers, x.1 ≠ k) ∧
         (firingsOf k (finalR asStr ops).base.log).length = 1)) ∧
     (finalR asStr ops).base.faults = [] := by
-  rw [reentrant_reduces asStr ops hd]
+  rw [reentrant_reduces asStr ops hn hd]
   exact ⟨exactly_once asStr _ hd, no_faults asStr _ hd⟩
+
+/-- Where a retry lands (stated directly, for every reachable state and any errbacks): `connectionLost` fires
+every call that was in the table with the loss reason, exactly once; every call an errback issued meanwhile is
+registered under its serial with a new, unfired Deferred - issued after the table was swapped, it is not owed
+the loss reason; nothing older stays in the table. -/
+theorem retry_lands_after_loss (asStr : V → Option (List Char)) (ops : List (Op V R)) (hd : DistinctSerials ops)
+    (rx : Reactions) (r : R) :
+    (∀ e ∈ (final asStr ops).pending,
+      firingsOf e.2.did (lostOpR rx (final asStr ops) r).log = [Firing.lost r]) ∧
+    (∀ e ∈ (final asStr ops).pending, ∀ c ∈ reactionOf rx e.2.did false,
+      ∃ e' ∈ (lostOpR rx (final asStr ops) r).pending, e'.1 = c.serial ∧ (final asStr ops).nextId ≤ e'.2.did ∧
+        firingsOf e'.2.did (lostOpR rx (final asStr ops) r).log = []) ∧
+    (∀ e' ∈ (lostOpR rx (final asStr ops) r).pending, (final asStr ops).nextId ≤ e'.2.did) :=
+  retry_lands_after_loss_state rx (inv_reachable asStr hd true) (by simp only [run_ready]; rfl) r
 
 /-! ## Examples: the hypotheses are satisfiable, and the hypothesis is needed -/
 
@@ -372,6 +428,8 @@ def retryOps : List (OpR Nat Nat) :=
   [ .op (.call 3 true (some 5) .noCheck), .onErr 0 [⟨4, some 3, .noCheck⟩],
     .op (.call 5 true none .noCheck), .op (.lost 1), .op (.expire 2), .op (.expire 2) ]
 
+example : NoRaise retryOps := Or.inr (by intro o ho a h; subst h; simp [retryOps] at ho)
+
 theorem retry_during_loss_times_out :
     flatOps exAsStr retryOps =
       [.call 3 true (some 5) .noCheck, .call 5 true none .noCheck, .lost 1, .call 4 true (some 3) .noCheck,
@@ -380,6 +438,36 @@ theorem retry_during_loss_times_out :
     firingsOf 2 (finalR exAsStr retryOps).base.log = [.timeOut C08Client.timeoutText.toList] ∧
     (finalR exAsStr retryOps).base.pending = [] ∧ (finalR exAsStr retryOps).base.timers = [] ∧
     (finalR exAsStr retryOps).base.faults = [] := by decide
+
+/-- A disconnect callback (`notifyOnDisconnect`) that issues a call: the call goes into the table that
+`connectionLost` then fails - it gets the loss reason like the others. -/
+def dcCallOps : List (OpR Nat Nat) :=
+  [ .op (.call 3 true (some 5) .noCheck), .onDisconnect (.issues [⟨4, some 2, .noCheck⟩]), .op (.lost 1) ]
+
+theorem disconnect_callback_call_is_failed :
+    flatOps exAsStr dcCallOps = [.call 3 true (some 5) .noCheck, .call 4 true (some 2) .noCheck, .lost 1] ∧
+    firingsOf 0 (finalR exAsStr dcCallOps).base.log = [.lost 1] ∧
+    firingsOf 1 (finalR exAsStr dcCallOps).base.log = [.lost 1] ∧
+    (finalR exAsStr dcCallOps).base.pending = [] ∧ (finalR exAsStr dcCallOps).base.timers = [] := by decide
+
+/-- F-1: `connectionLost` calls the disconnect callbacks BEFORE it fails the pending calls.  As long as the
+source does not guard them (`dcGuarded = false`), a callback that raises aborts `connectionLost`: the
+outstanding calls never get the loss reason and table and timer stay - the model of the unrepaired code violates
+"each outstanding call completes ... with the connection-loss reason".  (With the guard in the source the same
+sequence fails both calls: second half.) -/
+def dcRaiseOps : List (OpR Nat Nat) :=
+  [ .op (.call 3 true (some 5) .noCheck), .op (.call 4 true none .noCheck), .onDisconnect .raises, .op (.lost 1) ]
+
+theorem raising_disconnect_callback_aborts_loss :
+    (C08Client.dcGuarded = false →
+      firingsOf 0 (finalR exAsStr dcRaiseOps).base.log = [] ∧
+      firingsOf 1 (finalR exAsStr dcRaiseOps).base.log = [] ∧
+      (finalR exAsStr dcRaiseOps).base.pending.length = 2 ∧ (finalR exAsStr dcRaiseOps).base.timers.length = 1 ∧
+      (finalR exAsStr dcRaiseOps).base.faults = [.callbackRaised]) ∧
+    (C08Client.dcGuarded = true →
+      firingsOf 0 (finalR exAsStr dcRaiseOps).base.log = [.lost 1] ∧
+      firingsOf 1 (finalR exAsStr dcRaiseOps).base.log = [.lost 1] ∧
+      (finalR exAsStr dcRaiseOps).base.pending = [] ∧ (finalR exAsStr dcRaiseOps).base.timers = []) := by decide
 
 /-- Without distinct serials the property fails in the model (as in the code: the same
 `MethodCallMessage` object sent twice through `callRemoteMessage`): the second registration overwrites
@@ -413,6 +501,12 @@ end Txdbus.C08
 #print axioms Txdbus.C08.serials_distinct
 #print axioms Txdbus.C08.counter_run_properties
 #print axioms Txdbus.C08.serial_reuse_violates
+#print axioms Txdbus.C08.return_signature_binding
+#print axioms Txdbus.C08.caller_outcome
+#print axioms Txdbus.C08.caller_gets_convention
+#print axioms Txdbus.C08.retry_lands_after_loss
+#print axioms Txdbus.C08.disconnect_callback_call_is_failed
+#print axioms Txdbus.C08.raising_disconnect_callback_aborts_loss
 #print axioms Txdbus.C08.reentrant_reduces
 #print axioms Txdbus.C08.reentrant_exactly_once
 #print axioms Txdbus.C08.retry_during_loss_times_out
